@@ -128,11 +128,10 @@ impl Prop for C19 {
             gen_case(t, &o)
         };
         case.items.retain(|it| !matches!(it, Item::Section(s) if s.kind == SK::SubmoduleShort));
-        for it in case.items.iter_mut() {
-            if let Item::Commit(c) = it {
-                c.diffstat.clear(); // (diffstat rewriting under --relative-paths is not about links)
-            }
-        }
+        // (under --relative-paths delta rewrites the diffstat lines of a commit block and links the
+        // paths; elsewhere they pass through)
+        let has_diffstat = case.items.iter().any(|it| matches!(it, Item::Commit(c) if !c.diffstat.is_empty()));
+        ctx.class_if(has_diffstat && relative_paths, "diffstat-under-relative-paths");
         if case.sections().is_empty() {
             return Verdict::Skip("no-section");
         }
@@ -219,7 +218,16 @@ impl Prop for C19 {
                     (RowKind::FileHeader, _) => {
                         if let (Some(c), false) = (cur, file_omitted) {
                             if let Some(s) = secs.get(c) {
-                                let ok = url == url_for(&s.new_path, None) || url == url_for(&s.old_path, None);
+                                // a header naming two files (rename, copy, plain diff) links each name to
+                                // the file it names; `text` is what the link is wrapped around
+                                let two_names = s.old_path != s.new_path && !(text.contains(s.old_path.as_str()) && text.contains(s.new_path.as_str()));
+                                let ok = if two_names && text.trim() == s.old_path && !s.new_path.ends_with(s.old_path.as_str()) {
+                                    url == url_for(&s.old_path, None)
+                                } else if two_names && text.trim() == s.new_path && !s.old_path.ends_with(s.new_path.as_str()) {
+                                    url == url_for(&s.new_path, None)
+                                } else {
+                                    url == url_for(&s.new_path, None) || url == url_for(&s.old_path, None)
+                                };
                                 if !ok {
                                     let v = fail(format!("the file header of section {} ({} -> {}) must link to `{}` (or the old path)", c, s.old_path, s.new_path, url_for(&s.new_path, None)));
                                     if let (Verdict::Fail(mut f), true) = (v, matches!(s.kind, SK::BinaryModified | SK::BinaryAdded | SK::BinaryDeleted)) {
@@ -283,7 +291,31 @@ impl Prop for C19 {
                             }
                         }
                     }
-                    _ => {}
+                    _ => {
+                        // a diffstat line ` <path> | 12 ++--`: the displayed path is relative to the
+                        // user's directory (cwd/GIT_PREFIX); the link names that file
+                        let rt = cr.row.text();
+                        let after = rt.trim_start().strip_prefix(text.as_str()).map(|r| r.trim_start().starts_with('|')).unwrap_or(false);
+                        // (under `git log --relative` git itself has made the paths relative)
+                        if relative_paths && !git_relative && after && rt.starts_with(' ') {
+                            let user_dir = format!("{}/{}", cwd, prefix.clone().unwrap_or_default());
+                            let want_abs = normalize(&format!("{}/{}", user_dir, text.trim()));
+                            let want = tpl.replace("{path}", &want_abs).replace("{host}", "host.example").replace("{line}", "");
+                            if url != want {
+                                return fail(format!("the diffstat line shows `{}` relative to `{}`, so its link must be `{}`", text.trim(), user_dir, want));
+                            }
+                            let stat_paths: Vec<String> = case
+                                .items
+                                .iter()
+                                .filter_map(|it| if let Item::Commit(c) = it { Some(c) } else { None })
+                                .flat_map(|c| c.diffstat.iter())
+                                .filter_map(|l| l.split(" | ").next().map(|p| p.trim().to_string()))
+                                .collect();
+                            if !stat_paths.iter().any(|p| abs(p) == want_abs) {
+                                return fail(format!("the diffstat line shows `{}`, which names `{}`: not a file of this commit", text.trim(), want_abs));
+                            }
+                        }
+                    }
                 }
                 i = j;
             }
